@@ -137,6 +137,18 @@ CHECKS = {
              '(zlib is C code; a symbolic payload would be realised to one value) and is not claimed. Bounded model checking.',
         note='Trusted: CrossHair string/regex model, z3, the two reference splitters. Outside: longer arguments, NUL, gzip clause.',
         ref='C14'),
+    'C15': dict(
+        engine='E2',
+        technique='symbolic interpretation of the AST of backoff_iter (vf/pysym.py) into z3 real/int terms with bounded unrolling and unwinding '
+                  'check; IEEE-754 inductive step decided by cvc5 (QF_FP); counterexamples replayed on the real generator',
+        text='Read from the repository on every run, backoff_iter is executed symbolically: for all real start/stop/factor and symbolic count 0..5 '
+             'every path obligation (ValueError exactly outside the valid region and before any value, exactly count values, first == start, '
+             'monotone, capped, exact growth law incl. 0 -> min(1, stop)) is unsat; count=\'repeat\' never terminates within the bound; for all '
+             'jitter in [-1,1] and all draws each value lies between b and b(1-j); with the default count the last value is stop (factor in '
+             '{2, 10, 3/2} and every real factor >= 3/2). Over IEEE doubles one loop iteration from any valid state preserves the invariant and '
+             'follows the growth law (cvc5, all finite doubles) - an inductive argument without a count bound.',
+        note='Trusted: the pysym interpreter (validated on every run against the real generator on the repository test inputs), z3, cvc5. Reals stand for floats in the bounded obligations; only the inductive step is bit-precise.',
+        ref='C15'),
     'C16': dict(
         technique='bounded symbolic execution (CrossHair/z3) with solver-drawn characters and structures: ParsedException text round-trip over every '
                   'generated structure; ExceptionInfo/TracebackInfo vs the traceback module on solver-chosen live call chains',
@@ -214,6 +226,8 @@ def main():
         'engines': [
             {'name': 'E1', 'path': 'vf/worker.py', 'serves_properties': sorted(p for p in CHECKS if CHECKS[p].get('engine', 'E1') == 'E1'),
              'kind_free_text': E1},
+            {'name': 'E2', 'path': 'vf/pysym.py', 'serves_properties': sorted(p for p in CHECKS if CHECKS[p].get('engine', 'E1') == 'E2') + ['C20'],
+             'kind_free_text': 'own AST-walking symbolic interpreter producing z3 terms (reals/ints, bounded unrolling) and SMT-LIB for cvc5 (QF_FP); direct z3 lemmas (vf/direct.py)'},
         ],
         'checks': checks,
         'notes': 'Exit codes: 0 held within bounds (KNOWN-FINDING lines allowed), 1 reproduced violation, 3 harness error. '
